@@ -253,10 +253,10 @@ impl Check for C03 {
         ]
     }
     fn cases(&self, tier: Tier) -> u64 {
-        tier.pick(256, 4_096)
+        tier.pick(768, 8_192)
     }
     fn min_nontrivial(&self, tier: Tier) -> u64 {
-        tier.pick(400, 6_000)
+        tier.pick(1_200, 12_000)
     }
     fn shard_budget(&self, tier: Tier) -> Duration {
         tier.pick(Duration::from_secs(200), Duration::from_secs(1500))
